@@ -6,6 +6,8 @@
 //!         limits, every produced message decoded again with the crate's prost schema;
 //! kind 3: the real `send_response` and `on_message_received`, end to end: two litep2p nodes
 //!         over TCP loopback, one `BitswapEvent::Response` per message written.
+//! kind 8: the same two nodes: a `send_request` and a mixed `send_response` (presences and blocks),
+//!         every `BitswapEvent` the remote user sees.
 #[path = "c20_node.rs"]
 mod node;
 
@@ -15,7 +17,7 @@ use litep2p::{
     config::ConfigBuilder,
     protocol::libp2p::bitswap::{
         verif as bs, BitswapEvent, BitswapHandle, BlockPresenceType, Config as BitswapConfig,
-        ResponseType,
+        ResponseType, WantType,
     },
     transport::tcp::config::Config as TcpConfig,
     types::{
@@ -461,16 +463,20 @@ impl Net {
         Net { a, ha, b, hb, peer_b, counter: 0 }
     }
 
-    /// Sends the blocks with the real `send_response`, then a sentinel presence; returns the
-    /// Block entries of every Response event the receiver's user sees before the sentinel.
-    async fn exchange(&mut self, blocks: Vec<(Cid, Vec<u8>)>) -> Option<Vec<Vec<(Cid, Vec<u8>)>>> {
+    /// Sends the request (if any) with the real `send_request` and the entries (if any) with the
+    /// real `send_response`, then a sentinel presence; returns every event the receiver's user
+    /// sees before the sentinel.
+    async fn exchange(&mut self, job: Job) -> Option<Vec<Ev>> {
         self.counter += 1;
         let tag = format!("sentinel-{}-{}", self.counter, std::process::id());
         let d = Code::Sha2_256.digest(tag.as_bytes());
         let sentinel = Cid::new_v1(0x55, Multihash::wrap(d.code(), d.digest()).unwrap());
-        let responses: Vec<ResponseType> =
-            blocks.into_iter().map(|(cid, block)| ResponseType::Block { cid, block }).collect();
-        self.ha.send_response(self.peer_b, responses).await;
+        if let Some(cids) = job.request {
+            self.ha.send_request(self.peer_b, cids).await;
+        }
+        if !job.entries.is_empty() {
+            self.ha.send_response(self.peer_b, job.entries).await;
+        }
         self.ha
             .send_response(
                 self.peer_b,
@@ -488,24 +494,22 @@ impl Net {
                 _ = self.ha.next() => {},
                 ev = self.hb.next() => match ev {
                     Some(BitswapEvent::Response { responses, .. }) => {
-                        let mut blocks = Vec::new();
+                        let mut rest = Vec::new();
                         let mut done = false;
                         for r in responses {
                             match r {
-                                ResponseType::Block { cid, block } => blocks.push((cid, block)),
-                                ResponseType::Presence { cid, .. } => {
-                                    if cid == sentinel { done = true }
-                                }
+                                ResponseType::Presence { cid, .. } if cid == sentinel => done = true,
+                                other => rest.push(other),
                             }
                         }
-                        if !blocks.is_empty() {
-                            events.push(blocks);
+                        if !rest.is_empty() {
+                            events.push(Ev::Resp(rest));
                         }
                         if done {
                             return Some(events);
                         }
                     }
-                    Some(_) => {}
+                    Some(BitswapEvent::Request { cids, .. }) => events.push(Ev::Req(cids)),
                     None => return None,
                 },
             }
@@ -513,18 +517,31 @@ impl Net {
     }
 }
 
+/// One end-to-end exchange: what node A is asked to send to node B.
+#[derive(Clone)]
+struct Job {
+    request: Option<Vec<(Cid, WantType)>>,
+    entries: Vec<ResponseType>,
+}
+
+/// What B's user saw.
+enum Ev {
+    Req(Vec<(Cid, WantType)>),
+    Resp(Vec<ResponseType>),
+}
+
 /// The end-to-end exchanges run on their own thread and runtime: a defect that makes the
 /// implementation spin (e.g. a batching loop that stops making progress) blocks the tokio
 /// workers, timers included, so the caller waits with a wall-clock limit and abandons a hung
 /// worker (the process exits at the end of the run).
 struct E2e {
-    tx: std::sync::mpsc::Sender<Vec<(Cid, Vec<u8>)>>,
-    rx: std::sync::mpsc::Receiver<Option<Vec<Vec<(Cid, Vec<u8>)>>>>,
+    tx: std::sync::mpsc::Sender<Job>,
+    rx: std::sync::mpsc::Receiver<Option<Vec<Ev>>>,
 }
 
 impl E2e {
     fn spawn() -> E2e {
-        let (tx, job_rx) = std::sync::mpsc::channel::<Vec<(Cid, Vec<u8>)>>();
+        let (tx, job_rx) = std::sync::mpsc::channel::<Job>();
         let (res_tx, rx) = std::sync::mpsc::channel();
         std::thread::spawn(move || {
             let rt = tokio::runtime::Builder::new_multi_thread()
@@ -533,7 +550,7 @@ impl E2e {
                 .build()
                 .unwrap();
             let mut net: Option<Net> = None;
-            while let Ok(blocks) = job_rx.recv() {
+            while let Ok(job) = job_rx.recv() {
                 // a lost connection (keep-alive, scheduling) is not a property of the code
                 // under test: retry on fresh nodes before giving up
                 let mut result = None;
@@ -542,7 +559,7 @@ impl E2e {
                         net = Some(rt.block_on(async { Net::new() }));
                     }
                     let r = catch_unwind(AssertUnwindSafe(|| {
-                        rt.block_on(net.as_mut().unwrap().exchange(blocks.clone()))
+                        rt.block_on(net.as_mut().unwrap().exchange(job.clone()))
                     }));
                     match r {
                         Ok(Some(events)) => {
@@ -580,12 +597,33 @@ fn run_e2e(st: &mut E2eState, c: &[u64]) -> Option<Vec<u64>> {
         st.worker = Some(E2e::spawn());
     }
     let w = st.worker.as_ref().unwrap();
-    if w.tx.send(orig.clone()).is_err() {
+    let job = Job {
+        request: None,
+        entries: orig.iter().cloned().map(|(cid, block)| ResponseType::Block { cid, block }).collect(),
+    };
+    if w.tx.send(job).is_err() {
         st.worker = None;
         return Some(vec![3, E2E_TIMEOUT]);
     }
     match w.rx.recv_timeout(Duration::from_secs(100)) {
         Ok(Some(events)) => {
+            // the Block entries of every Response event
+            let events: Vec<Vec<(Cid, Vec<u8>)>> = events
+                .into_iter()
+                .filter_map(|e| match e {
+                    Ev::Resp(rs) => {
+                        let bl: Vec<(Cid, Vec<u8>)> = rs
+                            .into_iter()
+                            .filter_map(|r| match r {
+                                ResponseType::Block { cid, block } => Some((cid, block)),
+                                _ => None,
+                            })
+                            .collect();
+                        (!bl.is_empty()).then_some(bl)
+                    }
+                    Ev::Req(_) => None,
+                })
+                .collect();
             let mut out = vec![3u64, events.len() as u64];
             let mut cursor = 0usize;
             for ev in events {
@@ -601,6 +639,118 @@ fn run_e2e(st: &mut E2eState, c: &[u64]) -> Option<Vec<u64>> {
             st.worker = None;
             st.hung += 1;
             Some(vec![3, E2E_HUNG])
+        }
+    }
+}
+
+// ------------------------------------------------------------------ kind 8: request + mixed response, end to end
+
+fn gen_mixed(rng: &mut Rng) -> Vec<u64> {
+    let mut c = vec![8];
+    let nw = rng.pick(&[0u64, 0, 1, 2, 5, 9]);
+    c.push(nw);
+    for _ in 0..nw {
+        node::gen_want(rng, &mut c);
+    }
+    let np = rng.pick(&[0u64, 0, 1, 3, 6]);
+    c.push(np);
+    for _ in 0..np {
+        node::gen_want(rng, &mut c);
+    }
+    let nb = rng.pick(&[0u64, 0, 1, 2, 4, 10]);
+    c.push(nb);
+    let mb = bs::MAX_BATCH_SIZE as u64;
+    for _ in 0..nb {
+        let dlen = rng.pick(&[0u64, 1, 100, 5000, 70_000, mb / 2 + 1, mb, mb + 1]);
+        put_spec(gen_spec(rng, dlen, true), &mut c);
+    }
+    c
+}
+
+fn run_mixed(st: &mut E2eState, c: &[u64]) -> Option<Vec<u64>> {
+    let (wants, used) = node::read_wants(c, 1)?;
+    let (pres, used2) = node::read_wants(c, used)?;
+    let specs = parse_specs(c.get(used2..)?)?;
+    let blocks: Vec<(Cid, Vec<u8>)> =
+        specs.iter().enumerate().map(|(i, s)| true_block(i, s)).collect::<Option<_>>()?;
+    let wants: Vec<(Cid, WantType)> =
+        wants.into_iter().map(|(c, t)| (c, if t == 0 { WantType::Block } else { WantType::Have })).collect();
+    let pres: Vec<(Cid, BlockPresenceType)> = pres
+        .into_iter()
+        .map(|(c, t)| (c, if t == 0 { BlockPresenceType::Have } else { BlockPresenceType::DontHave }))
+        .collect();
+    if st.hung >= 2 {
+        return Some(vec![8, E2E_HUNG]);
+    }
+    if st.worker.is_none() {
+        st.worker = Some(E2e::spawn());
+    }
+    let w = st.worker.as_ref().unwrap();
+    let mut entries: Vec<ResponseType> =
+        pres.iter().map(|(cid, presence)| ResponseType::Presence { cid: *cid, presence: *presence }).collect();
+    entries.extend(blocks.iter().cloned().map(|(cid, block)| ResponseType::Block { cid, block }));
+    if w.tx.send(Job { request: Some(wants.clone()), entries }).is_err() {
+        st.worker = None;
+        return Some(vec![8, E2E_TIMEOUT]);
+    }
+    match w.rx.recv_timeout(Duration::from_secs(100)) {
+        Ok(Some(events)) => {
+            let mut out = vec![8u64, events.len() as u64];
+            let (mut cw, mut cp, mut cb) = (0usize, 0usize, 0usize);
+            for ev in events {
+                match ev {
+                    Ev::Req(cids) => {
+                        out.extend([1, cids.len() as u64]);
+                        for x in cids.iter() {
+                            let mut id = 777_777_777u64;
+                            for j in cw..wants.len() {
+                                if wants[j].0 == x.0 && wants[j].1 == x.1 {
+                                    cw = j + 1;
+                                    id = j as u64;
+                                    break;
+                                }
+                            }
+                            out.push(id);
+                        }
+                    }
+                    Ev::Resp(rs) => {
+                        let all_p = rs.iter().all(|r| matches!(r, ResponseType::Presence { .. }));
+                        let all_b = rs.iter().all(|r| matches!(r, ResponseType::Block { .. }));
+                        if all_p {
+                            out.extend([2, rs.len() as u64]);
+                            for r in rs.iter() {
+                                let mut id = 777_777_777u64;
+                                if let ResponseType::Presence { cid, presence } = r {
+                                    for j in cp..pres.len() {
+                                        if &pres[j].0 == cid && pres[j].1 == *presence {
+                                            cp = j + 1;
+                                            id = j as u64;
+                                            break;
+                                        }
+                                    }
+                                }
+                                out.push(id);
+                            }
+                        } else if all_b {
+                            out.extend([3, rs.len() as u64]);
+                            for r in rs {
+                                if let ResponseType::Block { cid, block } = r {
+                                    out.push(identify(&blocks, &mut cb, &(cid, block)));
+                                }
+                            }
+                        } else {
+                            out.extend([9, 0]);
+                        }
+                    }
+                }
+            }
+            Some(out)
+        }
+        Ok(None) => Some(vec![8, E2E_TIMEOUT]),
+        Err(_) => {
+            st.worker = None;
+            st.hung += 1;
+            Some(vec![8, E2E_HUNG])
         }
     }
 }
@@ -622,6 +772,9 @@ pub fn main(args: &Args) {
             Some(3) => run_e2e(net, c),
             Some(4) => node::run_node(c),
             Some(5) => node::run_pres(c),
+            Some(6) => node::run_wants(c),
+            Some(7) => node::run_blocks_msg(c),
+            Some(8) => run_mixed(net, c),
             _ => None,
         }));
         match r {
@@ -648,11 +801,14 @@ pub fn main(args: &Args) {
     for _ in 0..ncases {
         let mut r = rng.fork();
         let c = match r.below(100) {
-            0..=34 => gen_recv(&mut r, thorough),
-            35..=64 => gen_send(&mut r, thorough),
-            65..=68 => gen_e2e(&mut r, thorough),
-            69..=91 => node::gen_node(&mut r, thorough),
-            _ => node::gen_pres(&mut r, thorough),
+            0..=29 => gen_recv(&mut r, thorough),
+            30..=54 => gen_send(&mut r, thorough),
+            55..=58 => gen_e2e(&mut r, thorough),
+            59..=87 => node::gen_node(&mut r, thorough),
+            88..=92 => node::gen_pres(&mut r, thorough),
+            93..=96 => node::gen_wants(&mut r, thorough),
+            97 => gen_mixed(&mut r),
+            _ => node::gen_blocks_msg(&mut r),
         };
         let t = run(&c, &mut net);
         out.emit(&c, &t);
